@@ -210,7 +210,16 @@ def check_wrap(fx, R, gq, dim):
         return
     for k in range(dim):
         if k not in seen:
-            R.violated('O1', '%s::wrapCellIndexes_:axis%d' % (cname, k), 'axis %d is never wrapped (no assignment to the wrapped index %d)' % (k, k), fx.rel(f['loc']), 'E-SIB')
+            whole = []
+            for x in walk(f['body']):
+                if x.get('k') == 'Expr':
+                    t_ = sx(x['e'])
+                    if isinstance(t_, tuple) and len(t_) == 3 and t_[0] in ('=', '+=') and isinstance(t_[1], str) and 'rapp' in t_[1]:
+                        whole.append(t_)
+            if whole:
+                R.undecided('O1', '%s::wrapCellIndexes_:axis%d' % (cname, k), 'the wrapped vector is written as a whole, not per axis (form not enumerated)')
+            else:
+                R.violated('O1', '%s::wrapCellIndexes_:axis%d' % (cname, k), 'axis %d is never wrapped (no assignment to the wrapped index %d)' % (k, k), fx.rel(f['loc']), 'E-SIB')
         else:
             ok, rhs, loc = seen[k]
             R.check(ok, 'O1', '%s::wrapCellIndexes_:axis%d' % (cname, k),
